@@ -151,7 +151,13 @@ func readTimestamp(r io.Reader) (v time.Time, err error) {
 	if err = binary.Read(r, binary.BigEndian, &sec); err != nil {
 		return
 	}
-	return time.Unix(sec, 0).UTC(), nil
+	v = time.Unix(sec, 0).UTC()
+	if year := v.Year(); year < 0 || year > 9999 {
+		// Time.MarshalJSON rejects years outside [0,9999]: such a value (in the properties
+		// or in a field table) would make the whole item unmarshalable
+		v = time.Time{}.UTC()
+	}
+	return v, nil
 }
 
 /*
